@@ -61,17 +61,20 @@ LAB = ["b0", "b1", "x", "genid1", "N" + H1, "N" + H2, "n" + H1 + "b1", "f" + H2 
        # near-collisions of "b0": labels that differ only by leading/trailing `_`, case, `-`, `.`, a leading digit, `:`
        "_b0", "__b0", "b0_", "B0", "b-0", "b.0", "_", "b\u00b70",      # 12..19: legal in every syntax
        "0b0", "0",                                                    # 20..21: not an NCName (no rdf:nodeID)
-       "b:0", "_:b0", ":b0", "b0_:", "_:_b0"]                         # 22..26: `:` — N-Triples/N-Quads grammar, TriX, JSON-LD, hext
+       "b:0", "_:b0", ":b0", "b0_:", "_:_b0",                         # 22..26: `:` — N-Triples/N-Quads grammar, TriX, JSON-LD, hext
+       "1", "2", "3", "10"]                                           # 27..30: all digits (rdflib numbers its own nodes 1, 2, …)
 NEAR = [0] + list(range(12, 27))
+DIGITS = [27, 28, 29, 30, 21]
 COLON_OK = {"nt", "nquads", "trix", "json-ld", "hext"}
+N3_FAMILY = ["turtle", "n3", "trig"]
 
 
 def label_ok(k, fmt):
     """may label number k be written in syntax fmt?"""
-    if k >= 22:
+    if 22 <= k <= 26:
         return fmt in COLON_OK
     if k >= 20:
-        return fmt != "xml"
+        return fmt != "xml"        # not an NCName: no rdf:nodeID
     return True
 LITS = {0: ("", None, None), 1: ("0", XSDNS + "integer", None), 2: ("x", None, "en"), 3: ("a b", None, None),
         4: ("false", XSDNS + "boolean", None)}
@@ -79,8 +82,12 @@ MARK_P = 13          # predicate of marker triples
 SUBJ_I, OBJ_I, PRED_I, GRAPH_I = [1, 2, 3], [1, 2, 3, 4], [10, 11, 12], [20, 21]
 
 
+RDF_IRI = {30: D.RDFNS + "first", 31: D.RDFNS + "rest", 32: D.RDFNS + "nil"}
+RDF_IRI_REV = {v: k for k, v in RDF_IRI.items()}
+
+
 def iri_str(n):
-    return "http://e/i%d" % n
+    return RDF_IRI.get(n) or "http://e/i%d" % n
 
 
 def lit_tuple(n):
@@ -112,6 +119,8 @@ def compatible_fmts(quads, sink):
             continue
         if f["anon_g"] and fmt not in D.ANON_G:
             continue
+        if any(q[1] == "i30" for q in quads) and fmt not in N3_FAMILY:
+            continue
         if f["default"] and fmt in D.NO_DEFAULT:
             continue
         if sink == "graph" and (fmt not in D.TRIPLE_FMTS or f["named"]):
@@ -124,7 +133,7 @@ def compatible_fmts(quads, sink):
 
 def _gen_style(rng):
     return {k: rng.random() < 0.5 for k in ("group", "prefix", "sparqlprefix", "short", "anonstyle", "graphkw",
-                                            "bracedefault", "bytes", "pub", "crlf", "comment", "stream")}
+                                            "bracedefault", "bytes", "pub", "crlf", "comment", "stream", "nocoll")}
 
 
 def _gen_doc(rng, sink, idx, pool, earlier, init_bn):
@@ -132,6 +141,12 @@ def _gen_doc(rng, sink, idx, pool, earlier, init_bn):
     quadfmt = sink != "graph" and rng.random() < 0.6
     fmt = rng.choice(D.QUAD_FMTS if quadfmt else D.TRIPLE_FMTS)
     anon_ok = fmt in D.ANON_SO and rng.random() < 0.5
+    # "counting" documents: all-digit labels next to several [] / ( ) nodes, in the syntaxes whose parser numbers its nodes
+    counting = any(k in DIGITS for k in pool) and rng.random() < 0.7
+    if counting:
+        fmt = rng.choice(N3_FAMILY if sink != "graph" else N3_FAMILY[:2])
+        quadfmt = fmt == "trig"
+        anon_ok = True
     legal = [k for k in pool if label_ok(k, fmt)] or [0]
     nxt_anon = [0]
 
@@ -175,11 +190,20 @@ def _gen_doc(rng, sink, idx, pool, earlier, init_bn):
 
     quads = []
     g = gname()
-    for _ in range(rng.randint(1, 4)):
+    for _ in range(rng.randint(2, 5) if counting else rng.randint(1, 4)):
         if quadfmt and rng.random() < 0.45:
             g = gname()
-        r = rng.random()
-        if anon_ok and r < 0.2:           # anonymous subject with 1-2 statements
+        r = rng.random() * (0.55 if counting else 1.0)
+        if anon_ok and fmt in N3_FAMILY and rng.random() < (0.3 if counting else 0.08):
+            # a collection  s p ( x1 … xn )  =  n anonymous cells with rdf:first / rdf:rest
+            n = rng.randint(1, 3)
+            cells = ["a%d" % (nxt_anon[0] + j) for j in range(n)]
+            nxt_anon[0] += n
+            quads.append([subj(), pred(), cells[0], g])
+            for j, c in enumerate(cells):
+                quads.append([c, "i30", obj(), g])
+                quads.append([c, "i31", cells[j + 1] if j + 1 < n else "i32", g])
+        elif anon_ok and r < 0.2:           # anonymous subject with 1-2 statements
             a = "a%d" % nxt_anon[0]
             nxt_anon[0] += 1
             for _k in range(rng.randint(1, 2)):
@@ -219,6 +243,10 @@ def gen_case(rng, tier, i):
         pool = rng.sample(NEAR, rng.randint(2, 4))
         if rng.random() < 0.6 and 0 not in pool:
             pool[0] = 0
+    elif rng.random() < 0.3:     # all-digit labels (the N3-family parser numbers its own nodes n<uuid>b1, b2, …)
+        pool = rng.sample(DIGITS, rng.randint(2, 3))
+        if 27 not in pool and rng.random() < 0.7:
+            pool[0] = 27
     else:
         pool = rng.sample(range(12), rng.randint(1, 3))
         if rng.random() < 0.5:
@@ -323,6 +351,8 @@ def _abs_term(x):
         return "?" + x.n3()
     if x == DEFAULT:
         return "i0"
+    if str(x) in RDF_IRI_REV:
+        return "i%d" % RDF_IRI_REV[str(x)]
     m = re.fullmatch(r"http://e/i(\d+)", str(x))
     return "i%s" % m.group(1) if m else "?" + x.n3()
 
@@ -573,8 +603,13 @@ def run_impl(case):
         ks = {int(t[1:]) for q in d["quads"] for t in q if re.fullmatch(r"n\d+", t)}
         if len(ks & set(NEAR)) >= 2:
             stats["near_collision_docs"] = stats.get("near_collision_docs", 0) + 1
-        if any(k >= 22 for k in ks):
+        if any(22 <= k <= 26 for k in ks):
             stats["colon_label_docs"] = stats.get("colon_label_docs", 0) + 1
+        na = len({t for q in d["quads"] for t in q if t.startswith("a")})
+        if ks & set(DIGITS) and na and d["fmt"] in N3_FAMILY:
+            stats["digit_label_with_anon_docs"] = stats.get("digit_label_with_anon_docs", 0) + 1
+        if any(q[1] == "i30" for q in d["quads"]):
+            stats["collection_docs"] = stats.get("collection_docs", 0) + 1
     stats["same_doc_again"] = sum(1 for j, d in enumerate(case["docs"]) if any(d["quads"] == e["quads"] for e in case["docs"][:j]))
     return {"obs": obs, "viol": viol, "nontrivial": bool(shared),
             "key": repr((kind, case["init"], [(d["fmt"], d["quads"], d["into"]) for d in case["docs"]])),
